@@ -53,7 +53,7 @@ def run_three_delays(self):
     prog = [Instruction(OpCode.MOVEQ, 1, Register.TIME), Instruction(OpCode.WAIT), Instruction(OpCode.WAIT), Instruction(OpCode.WAIT)]
     self.run(prog)
 '''
-c = contract(M, 'run_three_delays', serves=['C09', 'C01', 'C19'], src=SRC_PROG, name='lemma:Machine.run(time 1; wait; wait; wait) with stop at any point')
+c = contract(M, 'run_three_delays', serves=['C09', 'C01', 'C19', 'C17'], src=SRC_PROG, name='lemma:Machine.run(time 1; wait; wait; wait) with stop at any point')
 def _setup(b, case):
     m = lib.machine(b, 'LOGICAL', lib.light_set_with(b, {}))
     stop_flag(b, m, '_keep_running', 'stop_seen')
